@@ -16,7 +16,8 @@ def plan(pid, tier, seed):
         mc = [
             {"module": "Deps", "cfg": "Deps_MC_thorough.cfg", "emit": True, "sample": 5000, "properties": PROPS_ALL, "timeout": 3000,
              "coverage": True},
-            {"module": "Deps", "cfg": "Deps_Gen_unused_thorough.cfg", "emit": True, "sample": 3000, "properties": PROPS_ALL, "timeout": 3000},
+            {"module": "Deps", "cfg": "Deps_Gen_unused_thorough.cfg", "emit": True, "sample": 2000, "properties": PROPS_ALL, "timeout": 3000},
+            {"module": "Deps", "cfg": "Deps_Gen_unused2_thorough.cfg", "emit": True, "sample": 2000, "properties": PROPS_ALL, "timeout": 3000},
         ]
     return {
         "harness": "deps",
